@@ -132,7 +132,7 @@ def run(ctx):
             off = float(rng.choice([1e5, 1e6])) if (not wide and rng.random() < 0.35) else 0.0
             if off:
                 # moderate variances for the offset cases, so that the conditioning of the input is known (see below)
-                vars_ = [np.exp(rng.uniform(math.log(0.5), math.log(2.0), size=vv.shape)) for vv in vars_]
+                vars_ = [np.exp(rng.uniform(math.log(0.5), math.log(2.0), size=(vv.shape[0], 1 if homo else vv.shape[1]))) * np.ones(vv.shape) for vv in vars_]
             want = []
             for p, e in enumerate(sizes):
                 v, mag = ev(terms[(n, e)], {"m": means[p], "v": vars_[p], "d": d})
